@@ -62,7 +62,7 @@ def jobs(tier):
     out.append({"K": 5 if q else 6, "faults": 1, "leader": False, "stop": True, "two_topics": True})
     # a consumer of the new generation fails synchronously (single attempt, committed-offset lookup refused) while the group is
     # still inside on_join_complete
-    out.append({"K": 5 if q else 6, "faults": 0, "leader": False, "stop": False, "sync_offset_reject": True})
+    out.append({"K": 8 if q else 9, "faults": 0, "leader": False, "stop": False, "sync_offset_reject": True})
     return out
 
 
